@@ -20,6 +20,14 @@ RULE = ('corpus (F6-F9 witnesses, empty-window witnesses) first; exhaustive box:
         'orders; editing the RESULT of a window (rc with features, popping / rewriting its features, its data, its id) and repeating; windows through a '
         'Feature sharing the Location objects of an own feature followed by rc(update_fts); a fresh object colliding on id and length; in-place windows; '
         'every step is compared with the model applied to the current value and the receiver is observed after every step; '
+        'a BioBasket stream (0-7 sequences of different lengths, DNA / RNA / gapped; seqs[i], seqs[a:b:st] with any step, seqs[w], seqs[i, w], '
+        'seqs[a:b:st, w] with w a type name / Feature / Location / int / slice, unsupported index shapes; sequences lacking the requested type; '
+        'seqs.rc(update_fts) on the basket, on a sliced basket sharing the sequence objects and through sl(); '
+        'tags (ids) of the selected sequences compared); a type-name lookup stream (families of types that are prefixes / suffixes / substrings '
+        'of each other, empty and missing types, the same type twice, any letter case); size thresholds (4-10 features, 4-8 locations per '
+        'feature, gapped rows up to 130 columns); RNA sequences inside the domain (residues compared up to U/T on the reverse strand); '
+        'kinds of values: slice bounds and Location coordinates as numpy integers, type names as instances of a str subclass; '
+        'every result of a single / basket case is edited afterwards (features popped / rewritten / mirrored, data, id) and the receiver re-observed; '
         'then seeded random cases: sequences of 0-60 residues (occasionally 300), '
         '0-3 features with 1-3 locations (strands + - . ?, random Defect bits, overlapping, touching the ends, edges shared with the window), windows int / '
         'slice (None, negative, beyond the ends, step None/1) / Location / Feature / own feature / type name (case-insensitive, missing) / unsupported object, '
@@ -34,24 +42,36 @@ TRUSTED = ['CPython str slicing, str.upper/lower, slice.indices, sorted() stabil
            'Location.__init__/_reverse, Defect._reverse, Strand._reverse (fts.py) -- see MODELLED_FUNCS',
            'residue complement: C05 model over the regenerated COMPLEMENT tables; Defect/Strand values regenerated (G_flags)',
            'object identity / aliasing is not modelled (the model is pure): state independence is decided by the history stream only']
-ASSUMPTIONS = ['Python str restricted to ASCII; sequences over the 17-symbol IUPAC nucleotide alphabet (case-insensitive) inside the domain '
-               '(RNA: theorem C06_rc_tracking_rna only; RNA cases are generated but outside wf_C06)',
+ASSUMPTIONS = ['Python str restricted to ASCII; sequences over the 17-symbol IUPAC nucleotide alphabet plus U (case-insensitive) inside the '
+               'harness domain wf_C06u; the tracking theorems are stated on the DNA domain wf_C06 (C06_wf_dna_in_rna: it lies inside), RNA by '
+               'C06_rc_tracking_rna up to U/T (BioSeq.complement decides per extracted piece whether it writes U or T: a minus-strand piece of an '
+               'RNA sequence that happens to contain no U is written with T; the oracle compares RNA residues up to U/T, the model exactly)',
                'feature locations and window locations lie inside [0, len] (inside [0, number of residues] when gap is given); Defect values < 256; '
                'slice step in (None, 1)',
                'update_fts with a multi-location window is rejected by design (ValueError, theorem C06_multi_update_error) and outside the domain',
                'gap x update_fts is under-specified in sugar (int/slice windows cut features at column bounds - pinned by sugar\'s own '
-               'test_seqs_getitem_special -, Location-like windows at residue numbers); both paths are modelled and compared, no theorem speaks about them']
+               'test_seqs_getitem_special -, Location-like windows at the window\'s residue numbers); both paths are modelled, compared and now '
+               'characterised (C06_gap_update_slice_path, C06_gap_update_loc_path): they agree exactly on windows whose bounds are aligned '
+               '(C06_gap_update_paths_agree_partial, C06_gap_update_paths_differ, C06_gap_update_paths_agree_refuted); which of the two is "right" '
+               'depends on whether feature coordinates count columns or residues, which sugar does not say',
+               'BioBasket forms: every sequence of the basket is a sequence of the domain and the window lies inside each of them']
 
 MODELLED_FUNCS = {
     'sugar/core/seq.py': ['BioSeq._getitem', 'BioSeq._slice_locs', 'BioSeq.rc', 'BioSeq.__getitem__', 'BioSeq.sl', 'BioSeq.__setitem__',
-                          '_Sliceable_GetItem.__init__', '_Sliceable_GetItem.__getitem__'],
+                          '_Sliceable_GetItem.__init__', '_Sliceable_GetItem.__getitem__',
+                          'BioBasket._getitem', 'BioBasket.__getitem__', 'BioBasket.sl', 'BioBasket.rc'],
     'sugar/core/fts.py': ['FeatureList.slice', 'FeatureList.rc', 'FeatureList.get', 'Feature.rc', 'Feature.__init__',
                           'LocationTuple.__new__', 'LocationTuple.range', 'LocationTuple._reverse',
                           'Location.__init__', 'Location._reverse', 'Defect._reverse', 'Strand._reverse'],
 }
 
 COMP = {'A': 'T', 'C': 'G', 'G': 'C', 'T': 'A', 'R': 'Y', 'Y': 'R', 'S': 'S', 'W': 'W', 'K': 'M', 'M': 'K', 'B': 'V', 'V': 'B',
-        'D': 'H', 'H': 'D', 'N': 'N', '.': '.', '-': '-'}
+        'D': 'H', 'H': 'D', 'N': 'N', '.': '.', '-': '-', 'U': 'A'}
+
+
+def _u2t(text):
+    """RNA is tracked up to writing T for U (C05's sense: BioSeq.complement decides per piece whether it writes U or T)"""
+    return text.replace('U', 'T')
 
 
 # ----------------------------------------------------------------------------- case generation
@@ -99,14 +119,23 @@ def _strand(rng):
 
 
 TYPES = ['cds', 'CDS', 'gene', 'Gene', 'exon', 'tRNA', None, '']
+# type names that are prefixes / suffixes / substrings of each other (lookup is by EQUALITY, case-insensitively)
+TYPES_NEST = ['gene', 'pseudogene', 'RNA', 'mRNA', 'tRNA', 'ncRNA', 'exon', 'exon_junction', 'UTR', "5'UTR", 'cd', 'cds', 'CDSs', 'Gene', None, '']
+NAMES_NEST = ['gene', 'PSEUDOGENE', 'rna', 'mrna', 'trna', 'ncrna', 'EXON', 'exon_junction', 'utr', "5'utr", 'cd', 'CDS', 'cdss', 'ex', 'e', 'missing']
 
 
-def _fts(rng, n, pts, maxft=3):
+def _fts(rng, n, pts, maxft=3, types=None):
     fts = []
-    for _ in range(rng.choice([0, 1, 1, 2, 2, 3][:maxft + 3])):
+    nft = rng.choice([0, 1, 1, 2, 2, 3][:maxft + 3])
+    many = maxft >= 3 and rng.random() < 0.06                     # long feature lists / long location lists (size thresholds)
+    if many:
+        nft = rng.randint(4, 10)
+    for _ in range(nft):
         s = _strand(rng)
         k = rng.choice([1, 1, 1, 2, 2, 3])
-        fts.append([rng.choice(TYPES), [_loc(rng, n, s, pts) for _ in range(k)]])
+        if many and rng.random() < 0.3:
+            k = rng.randint(4, 8)
+        fts.append([rng.choice(types or TYPES), [_loc(rng, n, s, pts) for _ in range(k)]])
     return fts
 
 
@@ -129,7 +158,8 @@ def _random_case(rng, big=False):
     kind = 'dna' if r < 0.6 else 'iupac' if r < 0.8 else 'lower' if r < 0.9 else 'rna' if r < 0.95 else 'aa'
     data = _seq(rng, n, kind)
     pts = [rng.randint(0, n) for _ in range(3)]
-    fts = _fts(rng, n, pts) if n else []
+    nest = rng.random() < 0.25
+    fts = _fts(rng, n, pts, types=TYPES_NEST if nest else None) if n else []
     u = rng.random() < 0.6
     case = {'data': data, 'fts': fts, 'u': u, 'splitter': None, 'filler': None}
     r = rng.random()
@@ -149,7 +179,9 @@ def _random_case(rng, big=False):
     elif r < 0.8 and fts:
         case['win'] = {'k': 'own', 'idx': rng.randrange(len(fts))}
     elif r < 0.92:
-        t = rng.choice(['cds', 'CDS', 'Cds', 'gene', 'GENE', 'exon', 'trna', 'missing', ''])
+        t = rng.choice(NAMES_NEST if nest else ['cds', 'CDS', 'Cds', 'gene', 'GENE', 'exon', 'trna', 'missing', ''])
+        if nest and fts and rng.random() < 0.5:                   # the type of a LATER feature (an earlier one may contain / extend it)
+            t = (fts[-1][0] or 'gene').swapcase()
         case['win'] = {'k': 'type', 'name': t}
     else:
         case['win'] = {'k': 'rc'}
@@ -165,6 +197,10 @@ def _random_case(rng, big=False):
         case['ctor'] = 'tuples'
     if rng.random() < 0.01:
         case['win'] = {'k': 'bad'}
+    if case['win']['k'] in ('slice', 'loc', 'feat') and rng.random() < 0.12:
+        case['coerce'] = 'np'                                     # numpy integers as bounds / coordinates
+    elif case['win']['k'] == 'type' and rng.random() < 0.3:
+        case['coerce'] = 'strsub'                                 # the type name is an instance of a str subclass
     # deliberately malformed inputs (outside the domain; the model must still agree on raise / no raise)
     if rng.random() < 0.08:
         m = rng.randrange(9)
@@ -221,11 +257,13 @@ def _gap_window(rng, m, fts, u):
 
 def _gap_case(rng):
     """one window with the gap option on a sequence that (mostly) contains gap columns"""
-    n = rng.choice([3, 5, 8, 12, 20])
+    n = rng.choice([3, 5, 8, 12, 20, 20, 33, 70, 130])
     gap = rng.choice(['-', '-', '-', '.', '-.', '.-', '', 'N'])
     data = _gapped(rng, n, gap if gap not in ('', 'N') else '-')
     if gap == 'N':
         data = data.replace('-', 'N')
+    if rng.random() < 0.1:
+        data = data.replace('T', 'U')                             # RNA alignment rows
     m = len([c for c in data if c not in gap])
     fts = _fts(rng, m, [], maxft=2) if m else []
     u = rng.random() < 0.35
@@ -236,6 +274,10 @@ def _gap_case(rng):
     if win['k'] not in ('int', 'slice') and rng.random() < 0.3:
         case['splitter'] = rng.choice([None, '|'])
         case['filler'] = rng.choice([None, 'N', '-'])
+    if win['k'] in ('slice', 'loc', 'feat') and rng.random() < 0.12:
+        case['coerce'] = 'np'
+    elif win['k'] == 'type' and rng.random() < 0.3:
+        case['coerce'] = 'strsub'
     return case
 
 
@@ -322,6 +364,90 @@ def _history(rng):
     return {'data': data, 'fts': fts, 'steps': steps}
 
 
+TYPE_FAMILIES = [['gene', 'pseudogene'], ['RNA', 'mRNA', 'tRNA', 'ncRNA'], ['exon', 'exon_junction', 'ex'], ['UTR', "5'UTR"],
+                 ['cd', 'cds', 'CDSs'], ['', 'gene', None], ['', 'e', 'exon'], ['Gene', 'GENE', 'gene ']]
+
+
+def _type_case(rng):
+    """type-name lookup: the FIRST feature whose type EQUALS the name, case-insensitively; earlier features carry types that
+    contain / extend / are contained in the name, the empty type, no type"""
+    n = rng.randint(2, 12)
+    data = _seq(rng, n, rng.choice(['dna', 'dna', 'lower']))
+    fam = list(rng.choice(TYPE_FAMILIES))
+    if rng.random() < 0.3:
+        fam.append(rng.choice(fam))                               # the same type twice: the first one wins
+    fts = [[t, [_loc(rng, n, _strand(rng), [], 0)]] for t in fam]
+    rng.shuffle(fts)
+    name = rng.choice([t for t in fam if t is not None] + ['missing', ''])
+    name = rng.choice([name, name.upper(), name.lower(), name.swapcase()])
+    case = {'data': data, 'fts': fts, 'u': rng.random() < 0.4, 'splitter': None, 'filler': None, 'win': {'k': 'type', 'name': name}}
+    if rng.random() < 0.15:
+        case['gap'] = '-'
+    if rng.random() < 0.25:
+        case['coerce'] = 'strsub'
+    return case
+
+
+BFORMS = ['int', 'slice', 'win', 'win', 'win', 'pairI', 'pairI', 'pairS', 'pairS', 'pairS', 'pairS', 'pairS', 'pairS', 'pairbad', 'bad',
+          'rc', 'rc', 'rc']
+
+
+def _basket_case(rng):
+    """BioBasket indexing: seqs[i], seqs[a:b:st], seqs[w], seqs[i, w], seqs[a:b:st, w] with w a type name / Feature / Location
+    (int / slice as the second component too); sequences of different lengths, some lacking the requested type"""
+    k = rng.choice([0, 1, 2, 3, 3, 4, 5, 7])
+    gap = rng.choice([None, None, None, '-', '.-'])
+    u = rng.random() < 0.3
+    types = rng.choice([['cds', 'CDS', 'gene'], TYPES_NEST, TYPES])
+    basket, ms = [], []
+    for _ in range(k):
+        n = rng.randint(3, 16)
+        if gap is not None:
+            data = _gapped(rng, n, gap)
+        else:
+            data = _seq(rng, n, rng.choice(['dna', 'dna', 'iupac', 'lower', 'rna']))
+        m = len([c for c in data if gap is None or c not in gap])
+        fts = _fts(rng, m, [], maxft=2, types=types) if m else []
+        if u:
+            fts = [[t, ls[:1]] if rng.random() < 0.9 else [t, ls] for t, ls in fts]
+        basket.append({'data': data, 'fts': fts})
+        ms.append(m)
+    mm = max(min(ms), 1) if ms else 4
+    form = rng.choice(BFORMS)
+    if form == 'rc':
+        # seqs.rc(update_fts=u) on the basket itself, on a sliced copy sharing the sequence objects, or sequence by sequence
+        if gap is not None:
+            basket = [dict(b, fts=[]) for b in basket]           # feature coordinates were drawn in residue numbers
+        return {'basket': basket, 'bidx': {'k': 'rc', 'via': rng.choice(['direct', 'slice', 'sl'])}, 'u': rng.random() < 0.75, 'gap': None,
+                'splitter': None, 'filler': None}
+    r = rng.random()
+    if form in ('pairI', 'pairS') and r < 0.25:
+        win = {'k': 'int', 'i': rng.randint(-mm - 1, mm)} if r < 0.08 else \
+              {'k': 'slice', 'a': _bound(rng, mm, []), 'b': _bound(rng, mm, []), 'step': None}
+    elif r < 0.5:
+        win = {'k': 'loc', 'l': _loc(rng, mm, rng.choice('+-+-.?'), [], 0)}
+    elif r < 0.7:
+        sd = rng.choice('+-')
+        win = {'k': 'feat', 'ls': [_loc(rng, mm, sd, [], 0) for _ in range(1 if u else rng.choice([1, 2, 3]))]}
+    elif r < 0.97:
+        pool = [t for b in basket for t, _ in b['fts'] if t] or ['cds']
+        win = {'k': 'type', 'name': rng.choice(pool).swapcase() if rng.random() < 0.8 else rng.choice(NAMES_NEST)}
+    else:
+        win = {'k': 'bad'}
+    bidx = {'k': form}
+    if form in ('int', 'pairI'):
+        bidx['i'] = rng.randint(-k - 1, k)
+    if form in ('slice', 'pairS'):
+        bidx.update(a=_bound(rng, k, []), b=_bound(rng, k, []), step=rng.choice([None, None, None, 1, 2, -1, -2, 3, 0]))
+    if form not in ('int', 'slice', 'bad'):
+        bidx['win'] = win
+    case = {'basket': basket, 'bidx': bidx, 'u': u, 'gap': gap, 'splitter': None, 'filler': None}
+    if form not in ('int', 'slice', 'bad') and win['k'] in ('feat', 'type', 'loc') and rng.random() < 0.3:
+        case['splitter'] = rng.choice([None, '|', ''])
+        case['filler'] = rng.choice([None, 'N', '-'])
+    return case
+
+
 def _box_cases(nmax):
     """every single-location feature x every window, update_fts=True, on a fixed sequence of each length"""
     out = []
@@ -364,9 +490,11 @@ def gen_cases(rng, tier):
     # multi-location extraction with filler / splitter (adjacent, overlapping and separated locations, all strands)
     for _ in range(6000 if tier == 'thorough' else 300):
         n = rng.randint(4, 14)
-        data = _seq(rng, n, rng.choice(['dna', 'dna', 'iupac', 'lower']))
+        k = rng.choice([2, 2, 3, 4, 4, 6, 8])
+        if k > 4:
+            n = rng.randint(2 * k, 2 * k + 10)
+        data = _seq(rng, n, rng.choice(['dna', 'dna', 'iupac', 'lower', 'rna']))
         s = rng.choice('++--.?')
-        k = rng.choice([2, 2, 3, 4])
         cuts = sorted(rng.sample(range(n + 1), min(2 * k, n + 1)))
         ls = [[cuts[2 * j], cuts[2 * j + 1], s, 0] for j in range(len(cuts) // 2)]
         if rng.random() < 0.25 and len(ls) > 1:
@@ -391,6 +519,10 @@ def gen_cases(rng, tier):
         cases.append(_gap_case(rng))
     for _ in range(5000 if tier == 'thorough' else 350):
         cases.append(_history(rng))
+    for _ in range(8000 if tier == 'thorough' else 450):
+        cases.append(_basket_case(rng))
+    for _ in range(3000 if tier == 'thorough' else 250):
+        cases.append(_type_case(rng))
     nrand = 40000 if tier == 'thorough' else 1600
     for _ in range(nrand):
         cases.append(_random_case(rng, big=(tier == 'thorough')))
@@ -400,7 +532,20 @@ def gen_cases(rng, tier):
 # ----------------------------------------------------------------------------- implementation driver
 
 def _canon_fts(fts):
-    return [[ft.type, [[l.start, l.stop, str(l.strand), int(l.defect)] for l in ft.locs]] for ft in fts]
+    return [[None if ft.type is None else str(ft.type), [[int(l.start), int(l.stop), str(l.strand), int(l.defect)] for l in ft.locs]]
+            for ft in fts]
+
+
+class _StrSub(str):
+    """a str subclass (what numpy.str_ / pandas hand out): a type name is a str whatever its exact class"""
+
+
+def _co(case, x):
+    """coordinates as numpy integers when the case asks for it (they index and compare like ints)"""
+    if x is None or case.get('coerce') != 'np':
+        return x
+    import numpy
+    return numpy.int64(x)
 
 
 CTOR_MODE = {None: 0, 'locs': 0, 'kw': 0, 'tuples': 1, 'none': 2, 'both': 2}
@@ -435,18 +580,18 @@ def _window(case, seq):
     if k == 'int':
         return w['i']
     if k == 'slice':
-        return slice(w['a'], w['b'], w['step'])
+        return slice(_co(case, w['a']), _co(case, w['b']), w['step'])
     if k == 'loc':
-        return Location(*w['l'])
+        return Location(_co(case, w['l'][0]), _co(case, w['l'][1]), *w['l'][2:])
     if k == 'feat':
-        return Feature('w', locs=[Location(*l) for l in w['ls']])
+        return Feature('w', locs=[Location(_co(case, l[0]), _co(case, l[1]), *l[2:]) for l in w['ls']])
     if k in ('own', 'ownlocs'):
         if not seq.fts:
             raise ValueError('no feature')
         ft = seq.fts[w['idx'] % len(seq.fts)]
         return ft if k == 'own' else Feature('w', locs=ft.locs)      # ownlocs: a new Feature sharing the Location objects
     if k == 'type':
-        return w['name']
+        return _StrSub(w['name']) if case.get('coerce') == 'strsub' else w['name']
     if k == 'bad':
         return 1.5
     raise ValueError(k)
@@ -480,6 +625,12 @@ def _impl_single(case):
     res = seq.sl(**kw)[win] if kw else seq[win]
     out = _state(res)
     assert _state(seq) == before, 'receiver was modified'
+    # the result is a new object: editing it (its features, its data, its id) must not reach the receiver
+    # (an int / slice result without update_fts shares its metadata with the parent by design: only its data is edited then)
+    shared = (not case['u']) and case['win']['k'] in ('int', 'slice')
+    seqid = seq.id
+    _mutate_result(res, ('flip', 'pop', 'rc')[len(case['data']) % 3], shared)
+    assert _state(seq) == before and seq.id == seqid, 'receiver shares state with the result'
     return out
 
 
@@ -556,7 +707,57 @@ def _impl_history(case):
     return out
 
 
+def _impl_basket(case):
+    from sugar import BioBasket, BioSeq
+    seqs = []
+    for k, b in enumerate(case['basket']):
+        seq = _build({'data': b['data'], 'fts': b['fts']})
+        seq.id = str(k)
+        seqs.append(seq)
+    ix = case['bidx']
+    form = ix['k']
+    win = _window(ix, None) if 'win' in ix else None
+    if form == 'int':
+        index = ix['i']
+    elif form == 'slice':
+        index = slice(ix['a'], ix['b'], ix['step'])
+    elif form == 'win':
+        index = win
+    elif form == 'pairI':
+        index = (ix['i'], win)
+    elif form == 'pairS':
+        index = (slice(ix['a'], ix['b'], ix['step']), win)
+    elif form == 'pairbad':
+        index = ('x', win)
+    else:
+        index = (0, 1, 2)
+    basket = BioBasket(seqs)
+    if form == 'rc':
+        target = {'direct': basket, 'slice': basket[:], 'sl': basket.sl()[0:len(seqs)]}[ix['via']]
+        res = target.rc(update_fts=True) if case['u'] else target.rc()
+        assert res is target and list(basket.data) == seqs, 'rc must return the receiver and keep the sequences'
+        return ['basket', [[int(sq.id), _state(sq)] for sq in basket]]
+    before = [_state(sq) for sq in seqs]
+    kw = _kw(case)
+    res = basket.sl(**kw)[index] if kw else basket[index]
+    if isinstance(res, BioSeq):
+        out = ['seq', [int(res.id), _state(res)]]
+    else:
+        assert isinstance(res, BioBasket), 'basket index must return a BioBasket'
+        out = ['basket', [[int(sq.id), _state(sq)] for sq in res]]
+    assert [_state(sq) for sq in seqs] == before and list(basket.data) == seqs, 'receiver was modified'
+    if form in ('win', 'pairI', 'pairS'):       # new sequence objects: editing them must not reach the basket's own sequences
+        shared = (not case['u']) and ix['win']['k'] in ('int', 'slice')
+        for sq in ([res] if isinstance(res, BioSeq) else res):
+            _mutate_result(sq, ('flip', 'pop', 'rc')[len(seqs) % 3], shared)
+        assert [_state(sq) for sq in seqs] == before and [sq.id for sq in seqs] == [str(k) for k in range(len(seqs))], \
+            'receiver shares state with the result'
+    return out
+
+
 def impl(case):
+    if 'basket' in case:
+        return _impl_basket(case)
     return _impl_history(case) if 'steps' in case else _impl_single(case)
 
 
@@ -626,7 +827,31 @@ def _step_term(st, fts):
     raise ValueError(op)
 
 
+def _bidx_term(ix):
+    form = ix['k']
+    w = _win_term(ix, None) if 'win' in ix else None
+    if form == 'int':
+        return '(QInt %s)%%Z' % _z(ix['i'])
+    if form == 'slice':
+        return '(QSlice %s %s %s)%%Z' % (_optz(ix['a']), _optz(ix['b']), _optz(ix['step']))
+    if form == 'win':
+        return '(QWin %s)' % w
+    if form == 'pairI':
+        return '(QPairI %s%%Z %s)' % (_z(ix['i']), w)
+    if form == 'pairS':
+        return '(QPairS %s%%Z %s%%Z %s%%Z %s)' % (_optz(ix['a']), _optz(ix['b']), _optz(ix['step']), w)
+    if form == 'pairbad':
+        return '(QPairBad %s)' % w
+    if form == 'rc':
+        return 'QRc'
+    return 'QBad'
+
+
 def model_term(case):
+    if 'basket' in case:
+        return 'out (run_C06b [%s] %s %s %s %s %s)' % (
+            '; '.join('(%s, %s)' % (coq_bs(b['data']), _fts_term(b['fts'])) for b in case['basket']), _bidx_term(case['bidx']),
+            coq_bool(case['u']), _optbs(case['splitter']), _optbs(case['filler']), _optbs(case.get('gap')))
     if 'steps' in case:
         return 'out (run_C06h %s %s [%s])' % (coq_bs(case['data']), _fts_term(case['fts']),
                                               '; '.join(_step_term(st, None) for st in case['steps']))
@@ -734,7 +959,7 @@ def spec_step(state, st, got):
         return 'raised %s' % got['e']
     cells, flipped, lo, hi = r
     exp = ''.join((COMP[data[c[1]]] if c[2] else data[c[1]]) if c[0] == 'r' else c[1].upper() for c in cells)
-    if got[0] != exp:
+    if got[0] != exp and not ('U' in data and _u2t(got[0]) == _u2t(exp)):
         return 'data: expected %r got %r' % (exp, got[0])
     if not st['u']:
         return None if got[1] == fts else 'features changed without update_fts: %r' % (got[1],)
@@ -832,7 +1057,68 @@ def _spec_history(case, got):
     return None
 
 
+def _spec_basket(case, got):
+    """the basket forms are the sequence-level window applied to every selected sequence, in order; the first sequence on which
+    the window is an error decides the exception; the selection itself is Python list indexing"""
+    ix = case['bidx']
+    form = ix['k']
+    k = len(case['basket'])
+    states = [[b['data'].upper(), _canon_raw(b['fts'])] for b in case['basket']]
+    if form in ('pairbad', 'bad'):
+        return None if got == {'e': 'TypeError'} else 'expected TypeError, got %r' % (got,)
+    if form == 'rc':                      # every sequence reverse-complemented, its features mirrored about its own length
+        if isinstance(got, dict):
+            return 'raised %s' % got['e']
+        if got[0] != 'basket' or [e[0] for e in got[1]] != list(range(k)):
+            return 'basket after rc: %r' % (got,)
+        st = {'win': {'k': 'rc'}, 'u': case['u'], 'splitter': None, 'filler': None}
+        for j, (_, state) in enumerate(got[1]):
+            why = spec_step(states[j], st, state)
+            if why:
+                return 'sequence %d of the basket (length %d): %s' % (j, len(states[j][0]), why)
+        return None
+    want_exc, sel, single = None, [], form in ('int', 'pairI')
+    if single:
+        if -k <= ix['i'] < k:
+            sel = [ix['i'] % k]
+        else:
+            want_exc = 'IndexError'
+    elif form in ('slice', 'pairS'):
+        if ix['step'] == 0:
+            want_exc = 'ValueError'
+        else:
+            sel = list(range(k))[slice(ix['a'], ix['b'], ix['step'])]
+    else:
+        sel = list(range(k))
+    st = dict(case, win=ix['win']) if 'win' in ix else None
+    if want_exc is None and st is not None:
+        for j in sel:
+            r = _cells(st, states[j][0], states[j][1])
+            if isinstance(r, str):
+                want_exc = r
+                break
+    if want_exc is not None:
+        return None if got == {'e': want_exc} else 'expected %s, got %r' % (want_exc, got)
+    if isinstance(got, dict):
+        return 'raised %s' % got['e']
+    if got[0] != ('seq' if single else 'basket'):
+        return 'result kind %r' % (got[0],)
+    elems = [got[1]] if single else got[1]
+    if [e[0] for e in elems] != sel:
+        return 'sequences selected: expected %r got %r' % (sel, [e[0] for e in elems])
+    for j, (_, state) in zip(sel, elems):
+        if st is None:
+            why = None if state == states[j] else 'sequence changed: expected %r got %r' % (states[j], state)
+        else:
+            why = spec_step(states[j], st, state)
+        if why:
+            return 'sequence %d: %s' % (j, why)
+    return None
+
+
 def spec(case, got):
+    if 'basket' in case:
+        return _spec_basket(case, got)
     if 'steps' in case:
         return _spec_history(case, got)
     return spec_step([case['data'].upper(), _canon_raw(case['fts'])], case, got)
@@ -855,6 +1141,10 @@ def _wstrand(case):
 
 
 def nontrivial(case, got):
+    if 'basket' in case:
+        ix = case['bidx']
+        return 'basket|%s|%s|u=%d|gap=%d|n=%d|%s' % (ix['k'], ix.get('win', {}).get('k'), case['u'], case.get('gap') is not None,
+                                                   min(len(case['basket']), 3), got['e'] if isinstance(got, dict) else 'ok')
     if 'steps' in case:
         ops = [(st['op'] if st['op'] != 'win' else st['win']['k'] + ('g' if st.get('gap') is not None else '')
                 + ('u' if st['u'] else '') + ('i' if st.get('inplace') else '') + ('m' if st.get('mut') else ''))
@@ -880,6 +1170,10 @@ def nontrivial(case, got):
 
 
 def histkey(case, got):
+    if 'basket' in case:
+        ix = case['bidx']
+        return ['basket', 'bidx=' + ix['k'], 'bwin=%s' % ix.get('win', {}).get('k'), 'nseqs=%d' % len(case['basket']),
+                'result=' + (got['e'] if isinstance(got, dict) else 'ok')]
     n = len(case['data'])
     ln = 'len=' + ('0' if n == 0 else '1-6' if n <= 6 else '7-60' if n <= 60 else '61+')
     if 'steps' in case:
@@ -892,6 +1186,8 @@ def histkey(case, got):
 
 
 def features(case, got):
+    if 'basket' in case:
+        return {'basket': True}
     if 'steps' in case:
         return {'history': True}
     w = case['win']
@@ -908,7 +1204,7 @@ def python_snippet(case):
             'print(json.dumps(c06.impl(case)))\n' % json.dumps(case))
 
 
-NO_SHRINK_KEYS = ('k', 'op', 'ctor')
+NO_SHRINK_KEYS = ('k', 'op', 'ctor', 'coerce', 'via')
 
 
 def _valid_loc(l):
@@ -948,7 +1244,29 @@ def _valid_winstep(c):
 def valid_case(c):
     """structural validity of a (shrunk) case; semantic validity is decided by wf_C06 in the model"""
     try:
+        if 'basket' in c:
+            ix = c['bidx']
+            if not (isinstance(c['basket'], list) and all(isinstance(b['data'], str) and _valid_fts(b['fts']) for b in c['basket'])):
+                return False
+            if ix['k'] not in BFORMS or not isinstance(c['u'], bool):
+                return False
+            if ix['k'] == 'rc':
+                return ix.get('via') in ('direct', 'slice', 'sl') and c.get('gap') is None
+            if any(not (c.get(o) is None or isinstance(c[o], str)) for o in ('splitter', 'filler', 'gap')):
+                return False
+            if ix['k'] in ('int', 'pairI') and not isinstance(ix['i'], int):
+                return False
+            if ix['k'] in ('slice', 'pairS') and not all(ix[x] is None or isinstance(ix[x], int) for x in ('a', 'b', 'step')):
+                return False
+            if ix['k'] in ('win', 'pairI', 'pairS', 'pairbad'):
+                w = ix['win']
+                if w['k'] in ('own', 'ownlocs', 'rc') or (ix['k'] == 'win' and w['k'] not in ('loc', 'feat', 'type')):
+                    return False
+                return _valid_winstep({'u': c['u'], 'win': w})
+            return True
         if not isinstance(c['data'], str) or not _valid_fts(c['fts']) or c.get('ctor') not in CTOR_MODE:
+            return False
+        if c.get('coerce') not in (None, 'np', 'strsub'):
             return False
         if 'steps' not in c:
             return _valid_winstep(c)
@@ -1024,23 +1342,30 @@ def extra_checks(rng, tier, cov):
                              'sequence length <= %d' % (5 if tier == 'thorough' else 3))
 
 
-LEVEL_TEXT = ('Machine-checked Coq theorems (34, no axioms) about an executable model of BioSeq._getitem/_slice_locs/rc(update_fts) and '
+LEVEL_TEXT = ('Machine-checked Coq theorems (49, no axioms) about an executable model of BioSeq._getitem/_slice_locs/rc(update_fts) and '
               'FeatureList.slice/rc: extraction by Location/Feature/type name is the 5\'->3\' concatenation of the (reverse-complemented) pieces '
               'with filler/splitter (filler pads ascending plus-strand locations to the range length); under update_fts every surviving location '
               'addresses the same residues inside the window (int, every slice window, Location / single-location Feature windows on both strands), '
               'survivors are exactly the overlapping locations, MISS flags are set exactly when cut, the 5\'->3\' order is kept, rc mirrors '
               'coordinates and flips strands (DNA exactly, RNA up to U/T as in C05, unstranded features coordinate-wise); without update_fts the '
               'features are unchanged for every option; gap-aware windows are, with the gap columns removed, the plain windows of the ungapped '
-              'sequence (both strands) and the option is neutral on gap-free sequences; error clauses (IndexError, multi-location update_fts). '
+              'sequence (both strands, any slice bounds incl. omitted / negative / crossing ones, int windows = the i-th residue) and the option is '
+              'neutral on gap-free sequences; error clauses (IndexError, multi-location update_fts); type-name lookup is the first feature whose '
+              'type equals the name case-insensitively; BioBasket forms seqs[w], seqs[i, w], seqs[a:b:st, w] are the sequence-level window mapped '
+              'over the selected sequences in order (first failing sequence decides the exception); BioBasket.rc(update_fts) mirrors every sequence\'s '
+              'features about that sequence\'s own length; under gap x update_fts the slice path cuts '
+              'features at column bounds, the Location path at the window\'s numbers, and the two agree exactly on aligned windows. '
               'The model is tied to sugar by differential testing on every run (exhaustive small box, random, gap stream, state-independence histories).')
 LEVEL_NOTE = ('Trusted: Coq kernel/vm_compute, translator (G_codes, G_flags), the correspondence harness, CPython str/slice/sorted. '
               'Modelled rather than verified: the functions in MODELLED_FUNCS (every statement of them is executed in the quick tier except '
               'fts.py:738,740 - FeatureList.slice defaults for start/stop None - and fts.py:640 - FeatureList.get with a list of names -, which no '
               'BioSeq window can reach). Proved vs tested: everything in LEVEL_TEXT is proved for gap=None unless gap is named; TESTED ONLY: '
-              'gap combined with update_fts (under-specified in sugar: column bounds on the int/slice path, residue numbers on the Location path), '
-              'gap on int windows and open/negative slice bounds, inplace=True, state independence (caches, aliasing of results and receivers: history '
+              'inplace=True, state independence (caches, aliasing of results and receivers: history '
               'stream; the model is pure), the Feature(...) argument forms beyond Location lists (C06_run_op_modes shows they build the same model '
-              'value), Strand/Defect validation, minus-strand variant of the filler length clause. ASCII strings; nucleotide alphabet for the rc clauses. '
+              'value), Strand/Defect validation, which sequences a basket slice with a step selects (list_slice is CPython\'s algorithm copied, '
+              'the theorems are parametric in it), RNA residues exactly (the theorems are up to U/T). Under gap x update_fts no theorem says which '
+              'of the two paths is right (sugar does not define whether feature coordinates count columns or residues); they are characterised and '
+              'shown to agree exactly on aligned windows. ASCII strings; nucleotide alphabet for the rc clauses. '
               'Domain excludes update_fts with multi-location windows (ValueError by design, proved); empty slice windows are inside the domain since '
               'the fix of the former empty_window defect (/repo f654eb3; witnesses kept in the corpus). '
               'All theorems closed under the global context (no axioms).')
